@@ -63,6 +63,30 @@ GROUP = {
             r.value.negbit() == sign.negbit(),                                                                   // @amount_with_sign.takes_sign
             r.value.val() == (if sign.negbit() == amount.value.negbit() { amount.value.val() } else { -amount.value.val() }),   // @amount_with_sign.keeps_magnitude
 """),
+        # Txn::dest_amount: what the counter-posting carries (the two expressions handed to to_posting_amount)
+        U("callsite:dest_amount.transferred", SE, [r"impl Txn\b", r"fn dest_amount\b"], fn="dest_transferred", no_canary=True, lifetimes="static",
+          slice=r"self\.to_posting_amount\((amount_with_sign\(transferred, [^)]*\))\)", slice_count=1,
+          slice_template="""fn dest_transferred(this: &'static TxnAmounts, transferred: &'static OwnedAmount) -> (r: BorrowedAmount)
+    ensures
+        // C16: with a conversion the counter-posting carries the secondary amount, its sign opposite to the row's amount
+        r.commodity@ == transferred.commodity@,
+        r.value.negbit() == !this.amount.value.negbit(),                                                  // @dest_amount.secondary_amount_gets_the_opposite_sign
+        r.value.val() == transferred.value.val() || r.value.val() == -transferred.value.val(),           // @dest_amount.secondary_amount_keeps_its_magnitude
+{
+    {EXPR}
+}""",
+          rewrites=[("R17-free-variable", "self.amount", "this.amount", 1)]),
+        U("callsite:dest_amount.plain", SE, [r"impl Txn\b", r"fn dest_amount\b"], fn="dest_plain", no_canary=True, lifetimes="static",
+          slice=r"unwrap_or_else\(\|\| self\.to_posting_amount\(([^)]*\(\))\)\)", slice_count=1,
+          slice_template="""fn dest_plain(this: &'static TxnAmounts) -> (r: BorrowedAmount)
+    ensures
+        // C16: without a conversion the counter-posting carries the opposite amount
+        r.commodity@ == this.amount.commodity@,
+        r.value.val() == -this.amount.value.val(),   // @dest_amount.counter_posting_is_the_opposite_amount
+{
+    {EXPR}
+}""",
+          rewrites=[("R17-free-variable", "self.amount", "this.amount", 1)]),
         ("text", "csv_roworder_stub.rs"),
         U("callsite:row_order", CSV, [r"pub fn import<R: std::io::Read>"], fn="apply_row_order", no_canary=True,
           slice=r"match config\.format\.row_order \{", slice_count=1,
